@@ -68,6 +68,13 @@ func globForm(v, s string) bool {
 // to classify a disagreement (oracle.go classify), never for the verdict.
 var looseNamespace bool
 
+// looseHeaderPresence: read request.headers[..] = "*" as "header present" (today's present_match),
+// classification only.
+var looseHeaderPresence bool
+
+// looseValue: the single policy value the loose reading is applied to (classification only).
+var looseValue string
+
 func looseNS(v, san string) bool {
 	for i := 0; i+4 <= len(san); i++ {
 		if san[i:i+4] != "/ns/" {
@@ -248,7 +255,7 @@ func specAtom(a attrKind, pns, key, v string, r *request) bool {
 	case aSrcPrincipal:
 		return r.hasPeer && strForm(v, r.td+"/ns/"+r.ns+"/sa/"+r.sa)
 	case aSrcNamespace:
-		if looseNamespace {
+		if looseNamespace && v == looseValue {
 			return r.hasPeer && looseNS(v, r.uriSan())
 		}
 		return r.hasPeer && globForm(v, r.ns)
@@ -288,6 +295,9 @@ func specAtom(a attrKind, pns, key, v string, r *request) bool {
 			return false
 		}
 		hv, present := r.header(name)
+		if v == "*" && !(looseHeaderPresence && looseValue == "*") {
+			return present && hv != "" // documented: `*` matches when the value is not empty
+		}
 		return present && hdrForm(false, v, hv)
 	case aReqPrincipal:
 		iss, ok1 := r.claim("iss")
@@ -295,7 +305,7 @@ func specAtom(a attrKind, pns, key, v string, r *request) bool {
 		if !(ok1 && ok2 && !iss.isList && !sub.isList && iss.s != "" && sub.s != "") {
 			return false // request.auth.principal = <iss>/<sub>, defined when both claims are non-empty strings
 		}
-		if looseJWTPrefix && !strings.HasPrefix(v, "*") && strings.HasSuffix(v, "*") && v != "*" {
+		if looseJWTPrefix && v == looseValue && !strings.HasPrefix(v, "*") && strings.HasSuffix(v, "*") && v != "*" {
 			if i := strings.LastIndex(v, "/"); i >= 0 {
 				return iss.s == v[:i] && strings.HasPrefix(sub.s, strings.TrimSuffix(v[i+1:], "*"))
 			}
@@ -380,7 +390,88 @@ func aliasValues(a attrKind, vs []string) []string {
 	return out
 }
 
+// Clause 2 of the statement. A field cannot be expressed on the filter chain when its attribute is
+// HTTP-only and the chain is TCP, or when its map-style key cannot be read; a value cannot be
+// expressed when it does not parse (CIDR, port).  An ALLOW rule with such a field / value matches
+// nothing; a DENY (AUDIT, CUSTOM) rule is enforced on its remaining conditions.
+var (
+	specTCP       bool // listener kind the statement is evaluated for
+	specRemaining bool // reading of the rule being evaluated: remaining conditions (DENY ...) or natural (ALLOW)
+)
+
+func httpOnlyAttr(a attrKind) bool {
+	switch a {
+	case aHost, aMethod, aPath, aHeader, aReqPrincipal, aAudiences, aPresenter, aClaim:
+		return true
+	}
+	return false
+}
+
+func attrExpressible(a attrKind, key string) bool {
+	if specTCP && httpOnlyAttr(a) {
+		return false
+	}
+	switch a {
+	case aHeader:
+		_, ok := bracketName(strings.TrimPrefix(key, "request.headers"))
+		return ok
+	case aClaim:
+		_, ok := nestedNames(strings.TrimPrefix(key, "request.auth.claims"))
+		return ok
+	case aEnvoyFilter:
+		_, _, ok := strings.Cut(strings.TrimSuffix(strings.TrimPrefix(key, "experimental."), "]"), "[")
+		return ok
+	}
+	return true
+}
+
+func valueParses(a attrKind, v string) bool {
+	switch a {
+	case aSrcIP, aRemoteIP, aDestIP:
+		if v == "" || strings.Contains(v, ":") {
+			return false
+		}
+		if strings.Contains(v, "/") {
+			_, err := netip.ParsePrefix(v)
+			return err == nil
+		}
+		_, err := netip.ParseAddr(v)
+		return err == nil
+	case aDestPort:
+		n, err := strconv.ParseUint(v, 10, 32)
+		return err == nil && n <= 65535
+	}
+	return true
+}
+
+func keepParsing(a attrKind, vs []string) []string {
+	var out []string
+	for _, v := range vs {
+		if valueParses(a, v) {
+			out = append(out, v)
+		}
+	}
+	return out
+}
+
+// fieldExpressible: the field is absent, or attribute and every value can be expressed.
+func fieldExpressible(a attrKind, key string, values, notValues []string) bool {
+	if len(values)+len(notValues) == 0 {
+		return true
+	}
+	if !attrExpressible(a, key) {
+		return false
+	}
+	return len(keepParsing(a, values)) == len(values) && len(keepParsing(a, notValues)) == len(notValues)
+}
+
 func specField(a attrKind, pns, key string, values, notValues []string, r *request) bool {
+	if specRemaining {
+		if !attrExpressible(a, key) {
+			return true // the condition is removed
+		}
+		values, notValues = keepParsing(a, values), keepParsing(a, notValues)
+	}
 	values, notValues = aliasValues(a, values), aliasValues(a, notValues)
 	pos := len(values) == 0
 	for _, v := range values {
@@ -457,10 +548,57 @@ func ruleMatches(pns string, rule *authpb.Rule, r *request) bool {
 	return true
 }
 
+// ruleExpressible: every field and value of the rule can be expressed on the chain.
+func ruleExpressible(rule *authpb.Rule) bool {
+	for _, f := range rule.From {
+		if s := f.GetSource(); s != nil {
+			if !(fieldExpressible(aSrcPrincipal, "", s.Principals, s.NotPrincipals) &&
+				fieldExpressible(aReqPrincipal, "", s.RequestPrincipals, s.NotRequestPrincipals) &&
+				fieldExpressible(aSrcSA, "", s.ServiceAccounts, s.NotServiceAccounts) &&
+				fieldExpressible(aSrcTD, "", s.TrustDomains, s.NotTrustDomains) &&
+				fieldExpressible(aSrcNamespace, "", s.Namespaces, s.NotNamespaces) &&
+				fieldExpressible(aRemoteIP, "", s.RemoteIpBlocks, s.NotRemoteIpBlocks) &&
+				fieldExpressible(aSrcIP, "", s.IpBlocks, s.NotIpBlocks)) {
+				return false
+			}
+		}
+	}
+	for _, t := range rule.To {
+		if o := t.GetOperation(); o != nil {
+			if !(fieldExpressible(aHost, "", o.Hosts, o.NotHosts) && fieldExpressible(aMethod, "", o.Methods, o.NotMethods) &&
+				fieldExpressible(aPath, "", o.Paths, o.NotPaths) && fieldExpressible(aDestPort, "", o.Ports, o.NotPorts)) {
+				return false
+			}
+		}
+	}
+	for _, c := range rule.When {
+		if a := attrOfKey(c.Key); a != aUnknown && !fieldExpressible(a, c.Key, c.Values, c.NotValues) {
+			return false
+		}
+	}
+	return true
+}
+
+// policyMatches: ALLOW rules in the natural reading and only when expressible; rules of every other
+// action on their remaining conditions.
 func policyMatches(p *model.AuthorizationPolicy, r *request) bool {
+	allow := p.Spec.Action == authpb.AuthorizationPolicy_ALLOW
 	for _, rule := range p.Spec.Rules {
-		if rule != nil && ruleMatches(p.Namespace, rule, r) {
-			return true
+		if rule == nil {
+			continue
+		}
+		if allow {
+			specRemaining = false
+			if ruleExpressible(rule) && ruleMatches(p.Namespace, rule, r) {
+				return true
+			}
+		} else {
+			specRemaining = true
+			m := ruleMatches(p.Namespace, rule, r)
+			specRemaining = false
+			if m {
+				return true
+			}
 		}
 	}
 	return false
@@ -494,7 +632,7 @@ func customDenies(s *sut, r *request) bool {
 	}
 	known := func(n string) bool {
 		for _, k := range s.providers {
-			if k == n {
+			if strings.TrimPrefix(k, "http:") == n {
 				return true
 			}
 		}
@@ -502,7 +640,7 @@ func customDenies(s *sut, r *request) bool {
 	}
 	for i := range s.policies {
 		p := &s.policies[i]
-		if !s.applies(p) || p.Spec.Action != authpb.AuthorizationPolicy_CUSTOM || p.Annotations["istio.io/dry-run"] == "true" {
+		if !s.applies(p) || p.Spec.Action != authpb.AuthorizationPolicy_CUSTOM || isDryRun(p) {
 			continue
 		}
 		bad := (len(provs) > 1 && !s.multi) || !known(p.Spec.GetProvider().GetName())
@@ -513,15 +651,26 @@ func customDenies(s *sut, r *request) bool {
 	return false
 }
 
+// isDryRun: the policy carries istio.io/dry-run with a value that reads as true (1, t, T, TRUE, true, True).
+func isDryRun(p *model.AuthorizationPolicy) bool {
+	v, ok := p.Annotations["istio.io/dry-run"]
+	if !ok {
+		return false
+	}
+	b, err := strconv.ParseBool(v)
+	return err == nil && b
+}
+
 func specDecision(s *sut, r *request) bool {
 	specBundle = s.bundle
+	specTCP = s.forTCP
 	if customDenies(s, r) {
 		return false
 	}
 	allowExists, allowMatch := false, false
 	for i := range s.policies {
 		p := &s.policies[i]
-		if !s.applies(p) || p.Annotations["istio.io/dry-run"] == "true" {
+		if !s.applies(p) || isDryRun(p) {
 			continue
 		}
 		switch p.Spec.Action {
